@@ -46,10 +46,15 @@ def judge_db(ctx, db, root_tbl, model, filters, tally, viol, agree_only=False):
                 tally[f"{name}:{cls}"] += 1
                 pm = plans["django" if name == "django" else "sa"][k]
                 unknown_field = r.startswith(("env:FieldError", "env:FieldDoesNotExist", "lib InvalidFieldException"))
-                if unknown_field:
+                if unknown_field and rc.names_lacking(t):
                     # a name the model does not have: refused by the ORM (Django) / by the library (SQLAlchemy); the plan models do not
                     # carry column catalogues, so there is nothing to compare
                     tally[f"{name}:refused-unknown-field"] += 1
+                    continue
+                if unknown_field:
+                    # every name of this filter exists on the model it is applied to (the generator knows which of its filters name a lacking column),
+                    # yet the backend reports an unknown field: a name was resolved against the wrong model
+                    viol.append((model, t, name, f"a filter over existing fields is refused as an unknown field: {r[:100]}"))
                     continue
                 if pm.startswith("ok ") and not (name.startswith("sa-") and rc.same_table_twice(t, model)):
                     ctx.diffs.append(("rel-plan-" + name, (model, t), r[:80], pm[:80]))
@@ -103,6 +108,11 @@ def run(ctx):
         for tbl, model, fs in rc.OTHER_ROOTS:
             judge_db(ctx, db, tbl, model, fs, tally, viol)
         # … and back to P afterwards (memoised reverse paths / joins from other models must not leak)
+        # a lambda nested in a lambda's body, then (or before) a predicate of the OUTER row on a column name the child models share / do not share
+        judge_db(ctx, db, "p", "P", ["tags/any(t: t/ps/any(q: q/a gt 0)) and a gt 0", "tags/any(t: t/ps/any(q: q/a gt 0)) and id gt 1", "a gt 0 and tags/any(t: t/ps/any(q: q/a gt 0))",
+                                     "tags/any(t: t/ps/any(q: q/a gt 0)) or s eq 'a'", "not tags/any(t: t/ps/all(q: q/a gt 0)) and id eq 2",
+                                     "tags/any(t: t/ps/any(q: q/kids/any(k: k/x eq 2))) and a eq 2", "o/ps/any(q: q/tags/any(t: t/label eq 'l')) and a gt 0 and id gt 0",
+                                     "(tags/any(t: t/ps/any(q: q/a gt 0)) and a gt 0) or (kids/any(k: k/x eq 2) and id gt 1)"], tally, viol)
         judge_db(ctx, db, "p", "P", ["o/ps/any(q: q/a gt 0)", "tags/any(t: t/ps/any(q: q/a gt 0))", "kids/any(k: k/x eq 2)", "o/name eq 'x' and w/o/label eq 'l'",
                                      "w/o/label eq 'l' and o/name eq 'x'", "not (o/name eq 'x') or w/o/label eq 'l'"], tally, viol)
     ctx.corr_names.append("relational-plan-models")
